@@ -304,6 +304,7 @@ structure Rec where
   off : Nat
   dtype : Nat
   name : Name
+  deriving DecidableEq
 
 def Node.dtype : Node → Nat
   | .dir _ => DT_DIR
@@ -327,20 +328,43 @@ def encode (r : Rec) : Bytes :=
   le8 r.ino ++ (le8 r.off ++ ([reclen r % 256, reclen r / 256 % 256] ++ (r.dtype ::
     (r.name ++ List.replicate (reclen r - 19 - r.name.length) 0))))
 
-/-- the longest prefix of the stream whose records fit into `space` bytes -/
-def fill : List Rec → Nat → Bytes × List Rec
+/-- the bytes of a run of records as the kernel stores them back to back -/
+def encodeAll (c : List Rec) : Bytes := c.flatMap encode
+
+/-- ONE answer of `getdents64(fd, buf, size)`.  How many whole records a call returns is the kernel's choice (file
+system, directory layout, a signal, …): the answers are an ENVIRONMENT INPUT of the iterator's model. -/
+inductive Dents where
+  | recs (chunk : List Rec)    -- these records stored at the start of the buffer, return value = their total length
+  | eod                        -- return value 0: end of directory
+  | err (e : Nat)              -- return value -e (EINTR, EIO, …); `ReadDir::next` does not retry any of them
+
+/-- `getdents64` against the scripted stream: (script left, bytes stored | errno).  An exhausted script is the end of
+the directory; a chunk that does not fit is answered EINVAL (the kernel's answer when not even one record fits). -/
+def sysGetdents (answers : List Dents) (size : Nat) : List Dents × Out Bytes :=
+  match answers with
+  | [] => ([], .ok [])
+  | .eod :: rest => (rest, .ok [])
+  | .err e :: rest => (rest, .error (.os e))
+  | .recs c :: rest =>
+    if (encodeAll c).length ≤ size then (rest, .ok (encodeAll c)) else (rest, .error (.os EINVAL))
+
+/-- the longest prefix of the stream whose records fit into `space` bytes, and what is left -/
+def fillRecs : List Rec → Nat → List Rec × List Rec
   | [], _ => ([], [])
   | r :: rs, space =>
-    if reclen r ≤ space then
-      let (b, rest) := fill rs (space - reclen r)
-      (encode r ++ b, rest)
+    if reclen r ≤ space then ((r :: (fillRecs rs (space - reclen r)).1), (fillRecs rs (space - reclen r)).2)
     else ([], r :: rs)
 
-/-- getdents64(fd, buf, size): bytes stored and the remaining stream; EINVAL when the next record does not fit -/
-def getdents (stream : List Rec) (size : Nat) : Out (Bytes × List Rec) :=
-  match stream with
-  | [] => .ok ([], [])
-  | r :: _ => if reclen r ≤ size then .ok (fill stream size) else .error (.os EINVAL)
+/-- how the kernel answers the successive `getdents64(fd, buf, size)` calls on a quiescent directory stream (observed
+on ext4/tmpfs and compared on every run): as many whole records as fit, each time; then 0; EINVAL when the next record
+does not fit at all.  One instance of the environment input. -/
+def kernelDents (size : Nat) : Nat → List Rec → List Dents
+  | _, [] => [.eod]
+  | 0, _ :: _ => []
+  | fuel + 1, r :: rs =>
+    if reclen r ≤ size then
+      .recs (fillRecs (r :: rs) size).1 :: kernelDents size fuel (fillRecs (r :: rs) size).2
+    else [.err EINVAL]
 
 /-! ## tiny-std mirrors -/
 
@@ -591,13 +615,13 @@ def tryFromBytes (buf : Bytes) : Parse :=
     | _ => .panic
 
 structure ReadDir where
-  stream : List Rec        -- kernel side: what the directory stream still holds
+  answers : List Dents     -- environment: what the kernel answers to the `getdents64` calls still to come
   buf : Bytes              -- `filled_buf: [u8; 512]`
   offset : Nat
   readSize : Nat
   eod : Bool
 
-def ReadDir.new (stream : List Rec) : ReadDir := ⟨stream, List.replicate 512 0, 0, 0, false⟩
+def ReadDir.new (answers : List Dents) : ReadDir := ⟨answers, List.replicate 512 0, 0, 0, false⟩
 
 inductive Item where
   | done
@@ -605,24 +629,30 @@ inductive Item where
   | panic
   | entry (dtype : Nat) (name : Name)
 
+/-- the tail of `next`: `Dirent::try_from_bytes(&self.filled_buf[self.offset..])` and `offset += d_reclen` -/
+def ReadDir.parse (s : ReadDir) : ReadDir × Item :=
+  if s.offset > s.buf.length then (s, .panic)        -- slice start out of range
+  else match tryFromBytes (s.buf.drop s.offset) with
+    | .none => (s, .done)
+    | .panic => (s, .panic)
+    | .some de => ({ s with offset := s.offset + de.reclen }, .entry de.dtype de.name)
+
 /-- `<ReadDir as Iterator>::next` -/
 def ReadDir.next (s : ReadDir) : ReadDir × Item :=
-  let refilled : Except Item ReadDir :=
-    if s.readSize = s.offset then
-      if s.eod then .error .done
-      else match getdents s.stream s.buf.length with
-        | .ok (bytes, rest) =>
-          if bytes.length = 0 then .error .done
-          else .ok { s with stream := rest, buf := bytes ++ s.buf.drop bytes.length, readSize := bytes.length, offset := 0 }
-        | .error e => .error (.err e)
-    else .ok s
-  match refilled with
-  | .error it => ({ s with eod := true }, it)
-  | .ok s1 =>
-    match tryFromBytes (s1.buf.drop s1.offset) with
-    | .none => (s1, .done)
-    | .panic => (s1, .panic)
-    | .some de => ({ s1 with offset := s1.offset + de.reclen }, .entry de.dtype de.name)
+  if s.readSize = s.offset then
+    if s.eod then (s, .done)
+    else match sysGetdents s.answers s.buf.length with
+      | (rest, .ok bytes) =>
+        if bytes.length = 0 then ({ s with answers := rest, eod := true }, .done)
+        else ReadDir.parse { s with answers := rest, buf := bytes ++ s.buf.drop bytes.length,
+                                    readSize := bytes.length, offset := 0 }
+      | (rest, .error e) => ({ s with answers := rest, eod := true }, .err e)
+  else s.parse
+
+/-- the items of `n` successive `next` calls -/
+def ReadDir.run : Nat → ReadDir → List Item
+  | 0, _ => []
+  | n + 1, s => s.next.2 :: ReadDir.run n s.next.1
 
 /-- drain the iterator (fuel = an upper bound on the number of `next` calls) -/
 def ReadDir.collect : Nat → ReadDir → Out (List (Nat × Name))
@@ -637,9 +667,9 @@ def ReadDir.collect : Nat → ReadDir → Out (List (Nat × Name))
       | .ok l => .ok ((t, n) :: l)
       | .error e => .error e
 
-/-- everything the iterator yields for a directory stream -/
+/-- everything the iterator yields for a directory stream answered the kernel's way (`kernelDents`) -/
 def readDirAll (stream : List Rec) : Out (List (Nat × Name)) :=
-  ReadDir.collect (stream.length + 1) (ReadDir.new stream)
+  ReadDir.collect (stream.length + 1) (ReadDir.new (kernelDents 512 stream.length stream))
 
 /-- `DirEntry::is_relative_reference` -/
 def isRelRef (name : Name) : Bool := name == [DOT] || name == [DOT, DOT]
